@@ -34,6 +34,10 @@ pub struct Sc {
     pub role_server: bool,
     /// number of extra clones of the Connection handle kept alive by other tasks
     pub clones: usize,
+    /// additionally pending when the cause is raised: finish() whose FIN cannot be acknowledged, an opening future whose preamble
+    /// finds no send budget, and a write blocked on the connection's send budget (the network withholds everything from the
+    /// moment these calls are issued; a peer-originated cause is then let through alone)
+    pub held_calls: bool,
 }
 
 impl Sc {
@@ -47,7 +51,7 @@ impl Sc {
             Cause::Partition => json!({"c":"partition"}),
             Cause::HandlesDropped { stalled_uni, stalled_bi } => json!({"c":"handles_dropped","stalled_uni":stalled_uni,"stalled_bi":stalled_bi}),
         };
-        json!({"cause": c, "role_server": self.role_server, "clones": self.clones})
+        json!({"cause": c, "role_server": self.role_server, "clones": self.clones, "held_calls": self.held_calls})
     }
     pub fn from_json(v: &Value) -> Sc {
         let c = &v["cause"];
@@ -61,7 +65,7 @@ impl Sc {
             "partition" => Cause::Partition,
             _ => Cause::HandlesDropped { stalled_uni: c["stalled_uni"].as_u64().unwrap() as usize, stalled_bi: c["stalled_bi"].as_u64().unwrap() as usize },
         };
-        Sc { cause, role_server: v["role_server"].as_bool().unwrap(), clones: v["clones"].as_u64().unwrap() as usize }
+        Sc { cause, role_server: v["role_server"].as_bool().unwrap(), clones: v["clones"].as_u64().unwrap() as usize, held_calls: v["held_calls"].as_bool().unwrap_or(false) }
     }
 }
 
@@ -122,8 +126,10 @@ pub async fn run(sc: Sc) -> Result<String, String> {
     let world = World::new(37);
     // library side: 3 s idle timeout so that the partition case is short; peer: small windows / few stream credits so that
     // open_*, opening, write can be made to block
-    let lib = Tweak { idle_ms: Some(Some(3_000)), ..Default::default() };
-    let peer = Tweak { idle_ms: Some(Some(30_000)), max_uni: Some(3), max_bi: Some(if sc.role_server { 1 } else { 2 }), stream_window: Some(1024), ..Default::default() };
+    let held = sc.held_calls;
+    // held variant: a send budget of 1000 bytes in flight on the library side, and three more uni stream credits
+    let lib = Tweak { idle_ms: Some(Some(3_000)), send_window: if held { Some(1000) } else { None }, ..Default::default() };
+    let peer = Tweak { idle_ms: Some(Some(30_000)), max_uni: Some(if held { 6 } else { 3 }), max_bi: Some(if sc.role_server { 1 } else { 2 }), stream_window: Some(1024), ..Default::default() };
     let (conn, raw, mut rs, _keep): (wtransport::Connection, Raw, RawSession, Box<dyn std::any::Any>) = if sc.role_server {
         let r = raw_vs_server(&world, &lib, &peer).await?;
         (r.sconn, r.raw, r.rs, Box::new(r.server_ep))
@@ -179,6 +185,14 @@ pub async fn run(sc: Sc) -> Result<String, String> {
     // library-opened uni stream with a full window (write pending), one for finish-with-acks-held, one idle for stopped()
     let mut s_write = conn.open_uni().await.map_err(|e| format!("{e:?}"))?.await.map_err(|e| format!("{e:?}"))?;
     let mut s_stopped = conn.open_uni().await.map_err(|e| format!("{e:?}"))?.await.map_err(|e| format!("{e:?}"))?;
+    let mut s_finish = None;
+    let mut s_fill = None;
+    if held {
+        let mut f = conn.open_uni().await.map_err(|e| format!("{e:?}"))?.await.map_err(|e| format!("{e:?}"))?;
+        f.write_all(b"fin").await.map_err(|e| format!("{e:?}"))?;
+        s_finish = Some(f);
+        s_fill = Some(conn.open_uni().await.map_err(|e| format!("{e:?}"))?.await.map_err(|e| format!("{e:?}"))?);
+    }
     // peer-opened uni stream without data (read pending)
     let ru = raw.open_uni_with(&wt_uni_preamble(sid)).await?;
     raw.hold(ru);
@@ -212,6 +226,29 @@ pub async fn run(sc: Sc) -> Result<String, String> {
     pending.push(("receive_datagram", tokio::spawn(async move { c.receive_datagram().await.map(|_| ()).map_err(|e| conn_err(&e)).err().unwrap_or("Ok".into()) })));
     let c = pick(3);
     pending.push(("closed", tokio::spawn(async move { conn_err(&c.closed().await) })));
+    // held variant: an opening future that owns its stream id (the last uni credit) but is awaited only once the send budget is gone
+    let (go_tx, go_rx) = tokio::sync::oneshot::channel::<()>();
+    let (got_tx, got_rx) = tokio::sync::oneshot::channel::<()>();
+    let mut go_tx_opt = Some(go_tx);
+    if held {
+        let c = pick(6);
+        pending.push(("opening", tokio::spawn(async move {
+            let opening = match c.open_uni().await {
+                Ok(o) => o,
+                Err(e) => return conn_err(&e),
+            };
+            let _ = got_tx.send(());
+            let _ = go_rx.await;
+            match opening.await {
+                Ok(_) => "Ok".into(),
+                Err(StreamOpeningError::NotConnected) => "Opening:NotConnected".into(),
+                Err(StreamOpeningError::Refused) => "Opening:Refused".into(),
+            }
+        })));
+        within(1_000, got_rx).await.ok_or("harness: no stream credit for the opening future")?.map_err(|_| "harness: opening task ended early")?;
+    } else {
+        drop((got_tx, go_rx, got_rx));
+    }
     // open_uni with the stream credit exhausted (the peer allows 3 uni streams: control + the two above)
     let c = pick(4);
     pending.push(("open_uni", tokio::spawn(async move {
@@ -262,13 +299,27 @@ pub async fn run(sc: Sc) -> Result<String, String> {
     })));
     pending.push(("stopped", tokio::spawn(async move { write_err(&s_stopped.stopped().await) })));
     settle().await;
-    // finish with the acknowledgements withheld (only when the cause does not need the network itself)
-    let with_finish = !matches!(sc.cause, Cause::Partition);
-    if with_finish {
-        // the two uni credits are used up; finish() is exercised on the bidi stream opened by the open_bi task? keep it simple:
-        // use the request/response path: not available. Skip when no credit.
+    if held {
+        // from here on nothing travels in either direction
+        world.net.set_policy_both(lib_addr, peer_addr, Policy::Hold);
+        let mut fill = s_fill.take().unwrap();
+        pending.push(("write_budget", tokio::spawn(async move {
+            match fill.write_all(&vec![0x62; 4096]).await {
+                Ok(()) => "Ok".into(),
+                Err(e) => write_err(&e),
+            }
+        })));
+        settle_ms(50).await;
+        let mut fin = s_finish.take().unwrap();
+        pending.push(("finish", tokio::spawn(async move {
+            match fin.finish().await {
+                Ok(()) => "Ok".into(),
+                Err(e) => write_err(&e),
+            }
+        })));
+        let _ = go_tx_opt.take().map(|t| t.send(()));
+        settle_ms(200).await;
     }
-    let _ = with_finish;
     for (name, t) in &pending {
         if t.is_finished() {
             return Err(format!("harness: call {name} completed before the cause"));
@@ -290,6 +341,11 @@ pub async fn run(sc: Sc) -> Result<String, String> {
         Cause::Partition => world.net.set_policy_both(lib_addr, peer_addr, Policy::Drop),
         Cause::HandlesDropped { .. } => unreachable!(),
     }
+    if held && !matches!(sc.cause, Cause::Partition | Cause::LocalClose { .. }) {
+        // only what the peer sent gets through: the library's FIN and preamble are still on hold, nothing of them is acknowledged
+        settle_ms(20).await;
+        world.net.release_from(peer_addr);
+    }
     // horizon: 2 s after the cause (idle timeout: 3 s + 2 s)
     let horizon = if sc.cause == Cause::Partition { 6_000 } else { 2_000 };
     let mut obs = vec![];
@@ -297,12 +353,12 @@ pub async fn run(sc: Sc) -> Result<String, String> {
     for (name, t) in pending {
         let r = within(horizon, t).await.ok_or_else(|| format!("pending {name} still not completed {horizon} ms after the cause"))?.map_err(|e| format!("{name}: task died: {e:?}"))?;
         let ok = match name {
-            "read" | "write" | "stopped" => allowed_stream.contains(&r),
-            "open_uni" | "open_bi" => allowed_conn(&sc.cause, name).contains(&r) || r == "Opening:NotConnected",
+            "read" | "write" | "stopped" | "finish" | "write_budget" => allowed_stream.contains(&r),
+            "open_uni" | "open_bi" | "opening" => allowed_conn(&sc.cause, name).contains(&r) || r == "Opening:NotConnected",
             _ => allowed_conn(&sc.cause, name).contains(&r),
         };
         if !ok {
-            return Err(format!("pending {name} completed with {r}; allowed: {:?}", if matches!(name, "read" | "write" | "stopped") { allowed_stream.to_vec() } else { allowed_conn(&sc.cause, name) }));
+            return Err(format!("pending {name} completed with {r}; allowed: {:?}", if matches!(name, "read" | "write" | "stopped" | "finish" | "write_budget") { allowed_stream.to_vec() } else { allowed_conn(&sc.cause, name) }));
         }
         obs.push(format!("{name}={r}"));
     }
@@ -379,18 +435,21 @@ pub fn scenarios(tier: Tier) -> Vec<Sc> {
     for c in causes {
         for role in [true, false] {
             for clones in if thorough { vec![0usize, 1, 2, 3] } else { vec![0, 2] } {
-                out.push(Sc { cause: c.clone(), role_server: role, clones });
+                out.push(Sc { cause: c.clone(), role_server: role, clones, held_calls: false });
+                if thorough && clones <= 1 {
+                    out.push(Sc { cause: c.clone(), role_server: role, clones, held_calls: true });
+                }
             }
         }
     }
     let stalled_max = if tier >= Tier::Deep { 9usize } else { 3 };
     if tier >= Tier::Deep {
         for k in 0..62u32 {
-            out.push(Sc { cause: Cause::PeerQuicClose { code: 1u64 << k, reason: format!("bit {k}").into_bytes() }, role_server: k % 2 == 0, clones: (k % 3) as usize });
-            out.push(Sc { cause: Cause::LocalClose { code: (1u64 << k) | 1, reason: vec![b'x'; k as usize] }, role_server: k % 2 == 1, clones: (k % 4) as usize });
+            out.push(Sc { cause: Cause::PeerQuicClose { code: 1u64 << k, reason: format!("bit {k}").into_bytes() }, role_server: k % 2 == 0, clones: (k % 3) as usize, held_calls: k % 4 == 1 });
+            out.push(Sc { cause: Cause::LocalClose { code: (1u64 << k) | 1, reason: vec![b'x'; k as usize] }, role_server: k % 2 == 1, clones: (k % 4) as usize, held_calls: k % 4 == 2 });
         }
         for k in 0..32u32 {
-            out.push(Sc { cause: Cause::PeerCapsule { code: 1u32 << k, reason: vec![b'r'; (k * 33) as usize % 1025] }, role_server: k % 2 == 0, clones: 1 });
+            out.push(Sc { cause: Cause::PeerCapsule { code: 1u32 << k, reason: vec![b'r'; (k * 33) as usize % 1025] }, role_server: k % 2 == 0, clones: 1, held_calls: k % 3 == 0 });
         }
     }
     for su in 0..stalled_max {
@@ -400,7 +459,7 @@ pub fn scenarios(tier: Tier) -> Vec<Sc> {
                     if !thorough && clones == 2 && su + sb > 1 {
                         continue;
                     }
-                    out.push(Sc { cause: Cause::HandlesDropped { stalled_uni: su, stalled_bi: sb }, role_server: role, clones });
+                    out.push(Sc { cause: Cause::HandlesDropped { stalled_uni: su, stalled_bi: sb }, role_server: role, clones, held_calls: false });
                 }
             }
         }
@@ -416,7 +475,7 @@ pub fn run_check(args: &Args) -> i32 {
     let rep = Report::new(
         args,
         "fault_enumeration",
-        "fault = termination cause (peer QUIC close x 4 code/reason pairs, peer close capsule x 3, peer FIN, local close x 4, four peer-induced local protocol errors, network partition -> idle timeout, all handles dropped with 0..2 uni and 0..2 bidi peer streams still inside their preamble) x role x number of cloned handles; in every execution nine kinds of calls are pending when the cause is raised (accept_uni, accept_bi, receive_datagram, closed, open_uni with stream credit exhausted, open_bi likewise, read without data, write against a full window, stopped) and six more are issued afterwards; each result is judged against the cause's allowed set and a 2 s virtual deadline",
+        "fault = termination cause (peer QUIC close x 4 code/reason pairs, peer close capsule x 3, peer FIN, local close x 4, four peer-induced local protocol errors, network partition -> idle timeout, all handles dropped with 0..2 uni and 0..2 bidi peer streams still inside their preamble) x role x number of cloned handles; in every execution nine kinds of calls are pending when the cause is raised (accept_uni, accept_bi, receive_datagram, closed, open_uni with stream credit exhausted, open_bi likewise, read without data, write against a full window, stopped), in the 'held' variant three more (finish() whose FIN cannot be acknowledged, an opening future whose preamble finds no send budget, a write blocked on the connection's send budget) and six more are issued afterwards; each result is judged against the cause's allowed set and a 2 s virtual deadline",
     );
     rep.assume("allowed results per cause: the exact cause, or LocallyClosed where the library itself shut the transport down in response; stream-level calls: NotConnected");
     let scs = scenarios(args.tier);
